@@ -76,6 +76,8 @@ def main(tier):
     for combined in (True, False):
         for claim in (True, False):
             run.add(DecodeTask('C16', combined, claim))
+            if not claim:
+                run.add(DecodeTask('C16', combined, claim, data_len=3 if not combined else 12))     # the outcome does not depend on how many data bytes a frame carries
     for t in init_tasks('C16'):
         run.add(t)
     from props.C04 import TransitionTask
